@@ -6,8 +6,7 @@ import common, llir, symx, models, smt
 from symx import Ptr, alloc_doubles, read_doubles, explore
 
 HARNESS = 'C02_box.cc'
-LIBS = ['-L%s/_build/csg/src/libcsg' % common.REPO, '-L%s/_build/tools/src/libtools' % common.REPO, '-lvotca_csg', '-lvotca_tools',
-        '-Wl,-rpath,%s/_build/csg/src/libcsg' % common.REPO, '-Wl,-rpath,%s/_build/tools/src/libtools' % common.REPO]
+LIBS = common.votca_libs()
 
 def run_box(mod, fn, box, ri, rj, assume=(), fpmode='real', parsed=None):
     """All feasible paths of h_<fn>(box, ri, rj, out). Returns [(pc, res[3], rounds)]"""
